@@ -23,6 +23,24 @@ Theorem C06_same_contents_same_index :
 Proof. exact history_independent. Qed.
 Print Assumptions C06_same_contents_same_index.
 
+(** the same for a whole editor SESSION: analyses, document closes (the document may be opened
+    again later with the same or a changed text), memoising queries and cycle queries, in any
+    interleaving - the index is that of a server started fresh on the latest valid contents *)
+From PLS Require Import Proofs.HistoryOps.
+Theorem C06_session_equals_fresh :
+  forall dk roots P ops,
+    persistent_of (run_ops dk roots (start P) ops)
+    = persistent_of (run_hist (start P) (last_valid (analyses ops))).
+Proof. exact session_equals_fresh. Qed.
+Print Assumptions C06_session_equals_fresh.
+
+Theorem C06_close_and_reopen_with_the_same_text_changes_nothing :
+  forall dk roots P ops F v, f_ok v = true ->
+    persistent_of (run_ops dk roots (start P) (ops ++ [HAnalyze F v; HClose F; HAnalyze F v]))
+    = persistent_of (run_ops dk roots (start P) (ops ++ [HAnalyze F v])).
+Proof. exact close_reopen_same_text. Qed.
+Print Assumptions C06_close_and_reopen_with_the_same_text_changes_nothing.
+
 (** nothing from superseded versions survives, nothing is duplicated *)
 Theorem C06_no_stale_definition :
   forall P h d, In d (defs (run_hist (start P) h)) ->
